@@ -147,7 +147,8 @@ IntStream(F, a) ==
                          ELSE LET u == Uvarint(F, p) IN Offs(k + 1, p + u.n, Append(acc, u.v))
   IN  Offs(0, a + nc.n, <<>>)
 
-ChunkStart(st, c) == st.data + (IF c = 0 THEN 0 ELSE st.offs[c])      \* chunk numbers from 0
+\* chunk numbers from 0; a chunk the stream does not have starts beyond everything (reads as zeros)
+ChunkStart(st, c) == IF c < 0 \/ c > Len(st.offs) THEN 8388607 ELSE st.data + (IF c = 0 THEN 0 ELSE st.offs[c])
 
 \* k uvarints starting at p: [vals, p]
 ReadN(F, p, k0) ==
